@@ -279,7 +279,7 @@ def gen_sdir(rng, schema):
     return {"k": "sdir", "drop": [list(x) for x in drop], "wrap": [list(x) for x in wrap]}
 
 
-def gen_ext(rng, schema, n):
+def gen_ext(rng, schema, n, force_wrapdir=False):
     """Structured extension document (also rendered to SDL)."""
     from py_gql.schema import InterfaceType, ObjectType
     names = live_names(schema)
@@ -311,9 +311,11 @@ def gen_ext(rng, schema, n):
             {"name": u + "z_val", "ty": ty("Int"), "args": []},
             {"name": "z_ref", "ty": ty(rng.choice(out_pool + [zed])), "args": [{"name": u + "z_arg", "ty": ty("Int")}] if rng.random() < 0.5 else []}]})
         out_pool = out_pool + [zed]
+    wrap_targets = []
     if names["object"] and rng.random() < 0.6:
         o = pick(names["object"])
         ext["fields"].setdefault(o, []).append({"name": "%sext_f%d" % (u, n), "ty": ty(rng.choice(out_pool)), "args": []})
+        wrap_targets.append([o, "%sext_f%d" % (u, n)])
     if names["interface"] and rng.random() < 0.35:
         i = pick(names["interface"])
         f = {"name": "%sext_if%d" % (u, n), "ty": ty(rng.choice(W.SCALARS)), "args": []}
@@ -334,7 +336,14 @@ def gen_ext(rng, schema, n):
         ext["new_dirs"].append({"name": "%sext_dir%d" % (u, n), "args": [{"name": u + "d_arg", "ty": ty("Int")}], "locs": ["FIELD"]})
     if not any(ext[k] for k in ext):
         ext["new_types"].append({"kind": "object", "name": "Zed%d" % n, "fields": [{"name": "z_val", "ty": ty("Int"), "args": []}]})
+    if rng.random() < 0.45 or force_wrapdir:
+        # `extend_schema(…, schema_directives=[Wrap])`: the extension document uses a schema directive (`@c14wrap`, a resolver
+        # wrapper) on fields it ADDS — or on none; fields of the source that carry it were wrapped when they were added
+        ext["wrapdir"] = {"define": WRAPDIR not in schema.directives, "targets": wrap_targets if rng.random() < 0.8 else []}
     return ext
+
+
+WRAPDIR = "c14wrap"
 
 
 def ty_sdl(t):
@@ -344,15 +353,18 @@ def ty_sdl(t):
 def ext_sdl(ext, schema):
     from py_gql.schema import InputObjectType, InterfaceType
     parts = []
+    wd = ext.get("wrapdir") or {"targets": []}
+    targets = {tuple(x) for x in wd["targets"]}
 
-    def fields(fs):
-        return "{ " + " ".join("%s%s: %s" % (f["name"], ("(" + ", ".join("%s: %s" % (a["name"], ty_sdl(a["ty"])) for a in f["args"]) + ")")
-                                             if f.get("args") else "", ty_sdl(f["ty"])) for f in fs) + " }"
+    def fields(fs, owner=None):
+        return "{ " + " ".join("%s%s: %s%s" % (f["name"], ("(" + ", ".join("%s: %s" % (a["name"], ty_sdl(a["ty"])) for a in f["args"]) + ")")
+                                               if f.get("args") else "", ty_sdl(f["ty"]),
+                                               " @" + WRAPDIR if (owner, f["name"]) in targets else "") for f in fs) + " }"
     for t in ext["new_types"]:
         parts.append("type %s %s" % (t["name"], fields(t["fields"])))
     for n, fs in ext["fields"].items():
         kw = "interface" if isinstance(schema.types[n], InterfaceType) else "type"
-        parts.append("extend %s %s %s" % (kw, n, fields(fs)))
+        parts.append("extend %s %s %s" % (kw, n, fields(fs, n)))
     for n, fs in ext["input_fields"].items():
         parts.append("extend input %s { %s }" % (n, " ".join("%s: %s" % (f["name"], ty_sdl(f["ty"])) for f in fs)))
     for n, ms in ext["members"].items():
@@ -362,6 +374,8 @@ def ext_sdl(ext, schema):
     for d in ext["new_dirs"]:
         parts.append("directive @%s(%s) on %s" % (d["name"], ", ".join("%s: %s" % (a["name"], ty_sdl(a["ty"])) for a in d["args"]),
                                                   " | ".join(d["locs"])))
+    if wd.get("define"):
+        parts.append("directive @%s on FIELD_DEFINITION" % WRAPDIR)
     return "\n".join(parts)
 
 
@@ -370,6 +384,9 @@ def gen_step(rng, schema, i, src=0):
     r = rng.random()
     if src != 0 and r >= 0.92:
         r = 0.1            # (replace steps only on the source)
+    if src != 0 and WRAPDIR in schema.directives and rng.random() < 0.6:
+        # a second extension, with schema directives again, of a schema whose fields already carry an applied directive
+        return {"op": "extend", "src": src, "ext": gen_ext(rng, schema, i, force_wrapdir=True)}
     if r < 0.15:
         return {"op": "clone", "src": src}
     if r < 0.55:
@@ -490,9 +507,28 @@ def make_visitor(v, funcs):
     raise ValueError(v["k"])
 
 
+def make_wrap_directive(wd, funcs):
+    """The implementation of `@c14wrap`: what a resolver-wrapping SchemaDirective does (`definition` by name: the directive is
+    defined in the schema / the extension document)."""
+    from py_gql.schema import Field
+    from py_gql.sdl import SchemaDirective
+
+    class Wrap(SchemaDirective):
+        definition = WRAPDIR
+
+        def on_field(self, f):
+            inner = f.resolver
+            fn = funcs.make(lambda *a, **kw: (inner or W.universal_resolver)(*a, **kw))
+            wd["wrap_ids"].setdefault(f.name, []).append(fn._vid)
+            return Field(f.name, f.type, args=f.arguments, description=f.description, deprecation_reason=f.deprecation_reason,
+                         resolver=fn, subscription_resolver=f.subscription_resolver, node=f.node, python_name=f.python_name)
+    return Wrap
+
+
 def apply_step(step, schemas, funcs):
     """Run one step on the live schemas. Returns (result schema | None, 'ok' | 'rejected:<Class>' | 'internal:<Class>')."""
     from py_gql.exc import ExtensionError, SchemaError, SchemaValidationError, SDLError
+    from py_gql.schema import InterfaceType, ObjectType
     from py_gql.schema.transforms import transform_schema
     from py_gql.sdl import extend_schema
     src = schemas[step["src"]]
@@ -522,7 +558,15 @@ def apply_step(step, schemas, funcs):
             return c, "ok"
         if step["op"] == "extend":
             step["sdl"] = ext_sdl(step["ext"], src)
-            return extend_schema(src, step["sdl"]), "ok"
+            wd = step["ext"].get("wrapdir")
+            if wd is None:
+                return extend_schema(src, step["sdl"]), "ok"
+            # fields of the schema being extended whose parse node carries the directive: it was applied when they were added
+            step["already_wrapped"] = sorted(
+                "%s.%s" % (n, f.name) for n, t in src.types.items() if isinstance(t, (ObjectType, InterfaceType)) and not n.startswith("__")
+                for f in t.fields if f.node is not None and any(d.name.value == WRAPDIR for d in f.node.directives))
+            wd["wrap_ids"] = {}
+            return extend_schema(src, step["sdl"], schema_directives=[make_wrap_directive(wd, funcs)]), "ok"
         if step["op"] == "replace":
             c = src.clone()
             d = {}
@@ -710,7 +754,12 @@ def check_result(step, src_world, world, ri, fail):
                     if k == "res" and where in wrapped:
                         exp = wrapped[where]
                     if exp != g[k]:
-                        fail("preserved:%s:field:%s" % (op, k), "%s: %s %r -> %r" % (where, k, exp, g[k]))
+                        if k == "res" and op == "extend" and where in step.get("already_wrapped", []):
+                            fail("preserved:extend:field:schema-directive-applied-again",
+                                 "%s carries @%s, applied when the field was added; extend_schema(…, schema_directives=…) with an "
+                                 "extension that does not mention it applied the directive AGAIN: resolver #%s -> #%s" % (where, WRAPDIR, exp, g[k]))
+                        else:
+                            fail("preserved:%s:field:%s" % (op, k), "%s: %s %r -> %r" % (where, k, exp, g[k]))
                 if _ty_str(f["ty"]) != _ty_str(g["ty"]):
                     fail("preserved:%s:field:type" % op, "%s: type %s -> %s" % (where, _ty_str(f["ty"]), _ty_str(g["ty"])))
                 cmp_args(where, "argument", [so[a] for a in f["args"]], [ro[a] for a in g["args"]])
@@ -904,6 +953,9 @@ def one_sequence(ctx, seed_note, size, n_steps, steps=None, build_seed=None):
             break
         if lazy:
             src_i = rng.choice(chainable) if chainable and rng.random() < 0.4 else 0
+            wrapped_ones = [k for k in chainable if WRAPDIR in schemas[k].directives]
+            if wrapped_ones and rng.random() < 0.5:
+                src_i = wrapped_ones[-1]
             step = gen_step(rng, schemas[src_i], i, src_i)
         else:
             step = copy.deepcopy(steps[i])
@@ -936,6 +988,9 @@ def one_sequence(ctx, seed_note, size, n_steps, steps=None, build_seed=None):
             targets = list(e["fields"]) + list(e["input_fields"]) + list(e["members"]) + list(e["values"])
             if any(t in W.RARE_TYPE_NAMES for t in targets):
                 ctx.stat("extend:block-on-a-type-with-a-rare-name:%s" % status.split(":")[0])
+            if e.get("wrapdir") is not None:
+                ctx.stat("extend:schema_directives:%d-new-fields-carry-it:%d-source-fields-carry-it:%s" % (
+                    len(e["wrapdir"]["targets"]), min(len(step.get("already_wrapped", [])), 3), status.split(":")[0]))
             if any(t["name"].startswith("_") for t in e["new_types"]):
                 ctx.stat("extend:new-names-with-a-leading-underscore:%s" % status.split(":")[0])
         found = []
@@ -1057,7 +1112,13 @@ def one_sequence(ctx, seed_note, size, n_steps, steps=None, build_seed=None):
                 ctx.stat("chain:registered-resolver-followed-through-two-derivations")
             closed_check("after using the result")
             if not isinstance(rq, dict):
-                fail("result-unusable:query:%s" % step["op"], "coverage query on the result raised %s" % rq)
+                msg = W.LAST_EXC[0]
+                if rq == "exc:RuntimeError" and "is not a possible type" in msg:
+                    fail("result-unusable:runtime-type-object-of-another-schema:%s" % step["op"],
+                         "a real query on the result raised %s (a type resolver of the source returns the ObjectType object, "
+                         "which is not the object the derived schema registers under that name)" % msg[:200])
+                else:
+                    fail("result-unusable:query:%s" % step["op"], "coverage query on the result raised %s" % (msg[:200] or rq))
             elif [m for m in rq.get("errors", []) if not m.endswith("is not nullable")] and isinstance(cur_q, dict) and not cur_q.get("errors"):
                 # ("is not nullable" = the harness' resolver has no possible object left for an abstract type: not a defect)
                 fail("result-unusable:query-errors:%s" % step["op"], "coverage query (fragments on every possible type) on the result reports %s"
@@ -1074,9 +1135,10 @@ def one_sequence(ctx, seed_note, size, n_steps, steps=None, build_seed=None):
                 step.setdefault("failed", []).append(sig)
             failures += new
             # a step that raised (nothing derived, the frame checks passed) or only lost registry entries: the sequence goes on
-            if not all(sig.startswith("registry:") or (sig.startswith("step-raises:") and res is None) for sig, _ in found):
+            if not all(sig.startswith(("registry:", "result-unusable:runtime-type-object-of-another-schema:"))
+                       or (sig.startswith("step-raises:") and res is None) for sig, _ in found):
                 break
-    if not any(not (sig.startswith("registry:") or sig.startswith("step-raises:")) for sig, _ in failures):
+    if not any(not sig.startswith(("registry:", "step-raises:", "result-unusable:runtime-type-object-of-another-schema:")) for sig, _ in failures):
         # (at the END of the sequence: the registrations on these extra clones must not interfere with the steps above)
         cfg_now = getattr(ctx, "_c14_cfg", None)
         cases = [("clone", source, "source")]
@@ -1108,7 +1170,15 @@ def to_model_request(base_world, steps, cfg):
                 vs.append(v2)
             m["visitors"] = vs
         if s["op"] == "extend":
-            m["ext"] = s["ext"]
+            m["ext"] = ext = copy.deepcopy(s["ext"])
+            wd = ext.pop("wrapdir", None)
+            if wd is not None:
+                for tn, fn_ in wd["targets"]:
+                    for f in ext["fields"].get(tn, []):
+                        if f["name"] == fn_ and wd.get("wrap_ids", {}).get(fn_):
+                            f["res"] = wd["wrap_ids"][fn_][-1]
+                if wd["define"]:
+                    ext["new_dirs"] = ext["new_dirs"] + [{"name": WRAPDIR, "args": [], "locs": ["FIELD_DEFINITION"]}]
         if s["op"] == "replace":
             m["entries"] = s["entries"]
         msteps.append(m)
@@ -1150,6 +1220,11 @@ def run(ctx):
             rec = shrink(ctx, cut, sig) if sig not in seen_sigs else cut
             seen_sigs.add(sig)
             ctx.fail(sig, what, rec)
+        if any("preserved:extend:field:schema-directive-applied-again" in st.get("failed", []) for st in record["steps"]):
+            # (the model applies the schema directives of an extension to the fields the extension adds; a run in which the code
+            #  applied them to source fields AGAIN — reported above by the direct oracle — is not compared object by object)
+            ctx.stat("corr:not-compared:schema-directive-applied-again")
+            msteps = []
         if cfg is not None and ctx.model_ok and msteps:
             try:
                 impl = W.canon(dumper.dump(schemas))
